@@ -81,21 +81,49 @@ func treeKey() string {
 	return hex.EncodeToString(h.Sum(nil))[:16]
 }
 
-func optsFor(prop string, tier string, i int, r *rng.Rand) GenOpts {
+// poolA: the synchronous-mode histories of C01, C02 and C03 (the same histories for the three checks: one
+// recording and one all-prefix exploration serve all of them; C05 takes its checkpointed member too).
+func poolA(tier string, i int) GenOpts {
+	o := GenOpts{Tier: tier}
+	// a mix: clean histories (inside every guard), variable-heavy, checkpointed
+	switch i % 4 {
+	case 0:
+		o.Clean = true
+	case 1:
+		o.OnlyVariable = true
+		o.Clean = true
+	case 2:
+		o.Ckpt = true
+	}
+	return o
+}
+
+// poolB: the short histories of C34 (crashes inside the recovery) and C04 (power loss), whose enumerations
+// grow with the length of the trace: shared by the two checks.
+func poolB(tier string, i int) GenOpts {
+	o := GenOpts{Tier: tier, Clean: true, MaxSteps: 4}
+	switch i % 3 {
+	case 0:
+		o.Ckpt = true
+	case 1:
+		o.OnlyVariable = true
+	case 2:
+		o.Ckpt = true
+		o.NoVariable = true
+	}
+	return o
+}
+
+// planFor: generator options and generator stream of the i-th generated history of a check.
+func planFor(prop string, tier string, i int) (GenOpts, uint64) {
 	o := GenOpts{Tier: tier}
 	switch prop {
 	case "C01", "C02", "C03":
-		// a mix: clean histories (inside every guard), variable-heavy, checkpointed
-		switch i % 4 {
-		case 0:
-			o.Clean = true
-		case 1:
-			o.OnlyVariable = true
-			o.Clean = true
-		case 2:
-			o.Ckpt = true
-		}
+		return poolA(tier, i), uint64(i)
 	case "C05":
+		if i%4 == 0 {
+			return poolA(tier, i+2), uint64(i + 2) // the checkpointed history of pool A
+		}
 		o.Clean = i%2 == 0
 		o.MaxSteps = 9
 		if i%2 == 1 {
@@ -104,6 +132,7 @@ func optsFor(prop string, tier string, i int, r *rng.Rand) GenOpts {
 		} else {
 			o.Ckpt = true // synchronous mode, checkpoints and rotations as history steps
 		}
+		return o, 1000 + uint64(i)
 	case "C35":
 		o.Shutdown = true
 		o.Clean = i%3 != 2
@@ -117,17 +146,11 @@ func optsFor(prop string, tier string, i int, r *rng.Rand) GenOpts {
 		} else {
 			o.Ckpt = true // synchronous mode with explicit checkpoints/rotations, then the shutdown branch's two calls
 		}
-	case "C34":
-		o.Clean = true
-		o.Ckpt = i%3 == 2
-		o.MaxSteps = 4
-	case "C04":
-		o.Clean = true
-		o.Ckpt = i%2 == 0
-		o.NoVariable = i%3 == 0
-		o.MaxSteps = 5
+		return o, 2000 + uint64(i)
+	case "C34", "C04":
+		return poolB(tier, i), 3000 + uint64(i)
 	}
-	return o
+	return o, uint64(i)
 }
 
 func kindOf(prop string) string {
@@ -142,53 +165,123 @@ func maxPrefixes(tier string) int {
 	if tier == "thorough" {
 		return 100000
 	}
-	return 150
+	return 100
 }
 
-// explore one history end to end (no cache).
-func exploreHistory(h History, dir string, tier string, workers int, kind string) Explored {
-	ex := Explored{History: h}
-	rec, err := Record(&h, dir, false)
-	if err != nil {
-		ex.Err = "record: " + err.Error()
-		return ex
+// Base: the layer of the trace cache that every check of the group shares: one recording of a history and the
+// real recovery's outcome on the crash images explored so far.  The double-crash layer (C02, C34) and the
+// power-loss layer (C04) are stored separately and are tied to the recording by the hash of its ops.
+type Base struct {
+	Ops  []Op         `json:"ops"`
+	Exit int          `json:"exit"`
+	Pre  []QBucket    `json:"pre,omitempty"`
+	Post []QBucket    `json:"post,omitempty"`
+	Ks   []int        `json:"ks"`
+	Outs []RecoverOut `json:"outs"`
+}
+
+type layer struct {
+	OpsKey string        `json:"ops_key"`
+	Double []DoubleCrash `json:"double,omitempty"`
+	PL     []PLObs       `json:"pl,omitempty"`
+}
+
+func readJSON(path string, v interface{}) bool {
+	b, err := os.ReadFile(path)
+	return err == nil && json.Unmarshal(b, v) == nil
+}
+
+func writeJSON(path string, v interface{}) {
+	b, _ := json.Marshal(v)
+	tmp := path + fmt.Sprintf(".%d", os.Getpid())
+	if os.WriteFile(tmp, b, 0o644) == nil {
+		os.Rename(tmp, path)
 	}
-	if h.Mode == "bg" {
-		// A timer flush can fire while WriteCSM is still queueing the commands of a request and split them over
-		// two transaction groups; the schedule inference (one TG per request) then does not apply.  Such a run
-		// is recorded again (the timers decide; it is rare).
-		for try := 0; try < 3; try++ {
-			d0 := Decode(rec.Ops, "/", h.VrlOf, nil)
-			if _, serr := h.SchedBG(d0); serr == nil && len(d0.Errs) == 0 {
-				break
-			}
-			if r2, err2 := Record(&h, dir, false); err2 == nil {
-				rec = r2
+}
+
+// explore one history: the shared base layer (recorded once per tree, whichever check of the group comes first;
+// prefixes another check already explored are not explored again), then the layers of this check's kind.
+func exploreHistory(h History, raw []byte, cacheDir, dir, tier string, workers int, kind string, nocache bool) Explored {
+	ex := Explored{History: h}
+	hk := sha1.Sum(raw)
+	hkey := hex.EncodeToString(hk[:])[:20]
+	basef := filepath.Join(cacheDir, "base-"+hkey+".json")
+	var base Base
+	if nocache || !readJSON(basef, &base) || len(base.Ops) == 0 {
+		base = Base{}
+		rec, err := Record(&h, dir, false)
+		if err != nil {
+			ex.Err = "record: " + err.Error()
+			return ex
+		}
+		if h.Mode == "bg" {
+			// A timer flush can fire while WriteCSM is still queueing the commands of a request and split them over
+			// two transaction groups; the schedule inference (one TG per request) then does not apply.  Such a run
+			// is recorded again (the timers decide; it is rare).
+			for try := 0; try < 3; try++ {
+				d0 := Decode(rec.Ops, "/", h.VrlOf, nil)
+				if _, serr := h.SchedBG(d0); serr == nil && len(d0.Errs) == 0 {
+					break
+				}
+				if r2, err2 := Record(&h, dir, false); err2 == nil {
+					rec = r2
+				}
 			}
 		}
+		base.Ops, base.Exit, base.Pre, base.Post = rec.Ops, rec.Exit, rec.Pre, rec.Post
 	}
-	ex.Ops, ex.Exit, ex.Pre, ex.Post = rec.Ops, rec.Exit, rec.Pre, rec.Post
+	ex.Ops, ex.Exit, ex.Pre, ex.Post = base.Ops, base.Exit, base.Pre, base.Post
 	root := filepath.Join(dir, "root")
 	if a, err := filepath.Abs(root); err == nil {
 		root = a
 	}
 	d := Decode(ex.Ops, root, h.VrlOf, nil)
 	ex.Ks = Prefixes(d, maxPrefixes(tier))
-	if kind == "C35" || kind == "C04" {
-		ex.Ks = []int{len(ex.Ops)} // only the final image matters (all prefixes are C01-C03's business)
+	if kind == "C35" || kind == "C04" || kind == "C34" {
+		ex.Ks = []int{len(ex.Ops)} // only the final image matters (all prefixes are C01-C03's business; C34's and C04's own images are in their layers)
 	}
-	obs := Explore(&h, d, ex.Ops, ex.Ks, filepath.Join(dir, "img"), workers)
-	if kind == "C34" || kind == "C02" {
-		ex.Double = ExploreDouble(&h, d, ex.Ops, root, filepath.Join(dir, "dbl"), tier, kind)
+	have := map[int]int{}
+	for j, k := range base.Ks {
+		have[k] = j
 	}
-	if kind == "C04" {
-		ex.PL = ExplorePL(&h, d, ex.Ops, filepath.Join(dir, "pl"), tier)
-	}
-	for _, o := range obs {
-		ex.Outs = append(ex.Outs, o.Raw)
-		if o.Err != "" && o.Raw.Class == "" {
-			ex.Outs[len(ex.Outs)-1] = RecoverOut{Class: "panic", Err: o.Err}
+	var missing []int
+	for _, k := range ex.Ks {
+		if _, ok := have[k]; !ok {
+			missing = append(missing, k)
 		}
+	}
+	if len(missing) > 0 {
+		obs := Explore(&h, d, ex.Ops, missing, filepath.Join(dir, "img"), workers)
+		for j, o := range obs {
+			out := o.Raw
+			if o.Err != "" && o.Raw.Class == "" {
+				out = RecoverOut{Class: "panic", Err: o.Err}
+			}
+			have[missing[j]] = len(base.Ks)
+			base.Ks = append(base.Ks, missing[j])
+			base.Outs = append(base.Outs, out)
+		}
+		writeJSON(basef, &base)
+	}
+	for _, k := range ex.Ks {
+		ex.Outs = append(ex.Outs, base.Outs[have[k]])
+	}
+	if kind == "C34" || kind == "C02" || kind == "C04" {
+		ob, _ := json.Marshal(ex.Ops)
+		ok := sha1.Sum(ob)
+		opsKey := hex.EncodeToString(ok[:])[:16]
+		lf := filepath.Join(cacheDir, "layer-"+kind+"-"+tier+"-"+hkey+".json")
+		var l layer
+		if nocache || !readJSON(lf, &l) || l.OpsKey != opsKey {
+			l = layer{OpsKey: opsKey}
+			if kind == "C04" {
+				l.PL = ExplorePL(&h, d, ex.Ops, filepath.Join(dir, "pl"), tier)
+			} else {
+				l.Double = ExploreDouble(&h, d, ex.Ops, root, filepath.Join(dir, "dbl"), tier, kind)
+			}
+			writeJSON(lf, &l)
+		}
+		ex.Double, ex.PL = l.Double, l.PL
 	}
 	os.RemoveAll(dir)
 	return ex
@@ -254,8 +347,8 @@ func DriverMain(prop string, args []string) int {
 		}
 		base := rng.New(*seed*0x9e3779b97f4a7c15 + *stream*0x2545f4914f6cdd1d + 777)
 		for i := 0; i < *n; i++ {
-			r := base.Fork(uint64(i))
-			h := Gen(r, optsFor(prop, *tier, i, r))
+			o, fi := planFor(prop, *tier, i)
+			h := Gen(base.Fork(fi), o)
 			b, _ := json.Marshal(h)
 			items = append(items, item{fmt.Sprintf("gen:seed=%d,stream=%d,i=%d", *seed, *stream, i), h, b})
 		}
@@ -292,30 +385,14 @@ func DriverMain(prop string, args []string) int {
 	var wg sync.WaitGroup
 	sem := make(chan struct{}, 4)
 	for i := range items {
-		hk := sha1.Sum(append([]byte(kindOf(prop)+"|"+*tier+"|"), items[i].raw...))
-		cf := filepath.Join(cacheDir, hex.EncodeToString(hk[:])[:20]+".json")
-		if !*nocache {
-			if b, err := os.ReadFile(cf); err == nil {
-				if json.Unmarshal(b, &exs[i]) == nil && exs[i].Err == "" && len(exs[i].Ops) > 0 {
-					continue
-				}
-			}
-		}
 		wg.Add(1)
-		go func(i int, cf string) {
+		go func(i int) {
 			defer wg.Done()
 			sem <- struct{}{}
 			defer func() { <-sem }()
 			work := filepath.Join(scratch, fmt.Sprintf("crashrun.%d.%d", os.Getpid(), i))
-			exs[i] = exploreHistory(items[i].h, work, *tier, 6, kindOf(prop))
-			if exs[i].Err == "" {
-				b, _ := json.Marshal(exs[i])
-				tmp := cf + fmt.Sprintf(".%d", os.Getpid())
-				if os.WriteFile(tmp, b, 0o644) == nil {
-					os.Rename(tmp, cf)
-				}
-			}
-		}(i, cf)
+			exs[i] = exploreHistory(items[i].h, items[i].raw, cacheDir, work, *tier, 6, kindOf(prop), *nocache)
+		}(i)
 	}
 	wg.Wait()
 	// ---- cases
